@@ -454,6 +454,12 @@ Definition commit_refs (g g' : git) : Prop :=
   g_tags g' = g_tags g /\ head_branch g' = head_branch g /\
   (forall n, bget (other_branches g') n = bget (other_branches g) n) /\
   (forall n, head_branch g <> Some n -> bget (g_branches g') n = bget (g_branches g) n).
+Lemma commit_refs_frame g g' : frame g g' -> commit_refs g g'.
+Proof.
+  intros F. split; [apply F|]. split; [now apply frame_head_branch|]. split.
+  - intros n. now rewrite (frame_other_branches _ _ F).
+  - intros n _. destruct F as (_ & -> & _). reflexivity.
+Qed.
 
 Lemma add_change_ext g g' p : g_index g' = g_index g -> g_wt g' = g_wt g -> add_change g' p = add_change g p.
 Proof. intros E1 E2. unfold add_change. now rewrite E1, E2. Qed.
@@ -565,6 +571,8 @@ Definition Inv (g : git) (ts : list path) : Prop :=
 
 Definition managed_clean (g : git) : Prop :=
   forall p, managed p = true -> tget (g_wt g) p = tget (g_index g) p.
+Lemma managed_clean_ext g g' : g_wt g' = g_wt g -> g_index g' = g_index g -> managed_clean g -> managed_clean g'.
+Proof. intros E1 E2 H p Hp. rewrite E1, E2. now apply H. Qed.
 
 Definition call_rel (tb : option name) (g g' : git) : Prop :=
   teq (g_wt g') (g_wt g) /\
@@ -672,6 +680,143 @@ Proof.
     destruct (oblob_eqb_spec (tget (head_tree g) p) (tget (g_index g) p)) as [Eq|Nq]; [exact Eq|reflexivity].
 Qed.
 
+(* ---- the repaired flow (P24): commit limited by pathspecs, no stash ----------------------------- *)
+Lemma mem_commit_paths g p : mem p (commit_paths g) = true -> managed p = true.
+Proof. intros H. apply mem_spec in H. unfold commit_paths in H. apply filter_In in H. apply H. Qed.
+
+Lemma git_commit_only_spec g ok g1 : git_commit_only g = (ok, g1) ->
+  g_wt g1 = g_wt g /\ g_stash g1 = g_stash g /\ g_tags g1 = g_tags g /\
+  (ok = false -> g1 = g) /\
+  (forall p, tget (g_index g1) p = tget (g_index g) p \/
+             (ok = true /\ managed p = true /\ tget (g_index g1) p = tget (g_wt g) p)) /\
+  (ok = true ->
+     (forall p, tget (head_tree g1) p = if mem p (commit_paths g) then tget (g_wt g) p else tget (head_tree g) p) /\
+     head_branch g1 = head_branch g /\
+     (forall n, bget (other_branches g1) n = bget (other_branches g) n) /\
+     (forall n, head_branch g <> Some n -> bget (g_branches g1) n = bget (g_branches g) n) /\
+     exists c, g_log g1 = c :: g_log g /\ c_parent c = head_id g /\
+               forall p, managed p = false -> tget (c_tree c) p = tget (head_tree g) p).
+Proof.
+  unfold git_commit_only. destruct (commit_pathspecs_match g).
+  2:{ intros [= <- <-]. split; [reflexivity|]. split; [reflexivity|]. split; [reflexivity|]. split; [reflexivity|].
+      split; [intros p; now left|discriminate]. }
+  set (ps := commit_paths g).
+  set (gT := set_index g (upd (head_tree g) ps (tget (g_wt g)))).
+  destruct (git_commit gT) as [okc gc] eqn:Ec.
+  destruct (git_commit_spec _ _ _ Ec) as (Ic & Wc & Sc & Tc & Cf & Ct).
+  destruct okc; intros [= <- <-].
+  2:{ split; [reflexivity|]. split; [reflexivity|]. split; [reflexivity|]. split; [reflexivity|].
+      split; [intros p; now left|discriminate]. }
+  destruct (Ct eq_refl) as (Ht & Hb & Hob & Hbr & c & Hl & Hct & Hcp).
+  cbn [g_wt g_stash g_tags g_index set_index].
+  split; [exact Wc|]. split; [exact Sc|]. split; [exact Tc|]. split; [discriminate|]. split.
+  { intros p. rewrite tget_upd. destruct (mem p ps) eqn:Em; [right|now left].
+    split; [reflexivity|]. split; [exact (mem_commit_paths g p Em)|reflexivity]. }
+  intros _.
+  assert (Hht : head_tree (set_index gc (upd (g_index g) ps (tget (g_wt g)))) = head_tree gc) by reflexivity.
+  split.
+  { intros p. rewrite Hht, Ht. unfold gT. cbn [g_index set_index]. apply tget_upd. }
+  split; [exact Hb|]. split; [exact Hob|]. split; [exact Hbr|].
+  exists c. split; [exact Hl|]. split; [exact Hcp|].
+  intros p Hp. rewrite Hct. unfold gT. cbn [g_index set_index]. rewrite tget_upd.
+  destruct (mem p ps) eqn:Em; [|reflexivity]. apply (mem_commit_paths g) in Em. congruence.
+Qed.
+
+(* one automation call of the repaired flow: for EVERY state *)
+Definition call_rel24 (tb : option name) (g g' : git) : Prop :=
+  g_wt g' = g_wt g /\ g_stash g' = g_stash g /\
+  (forall p, managed p = false -> tget (g_index g') p = tget (g_index g) p) /\
+  (forall p, managed p = false -> tget (head_tree g') p = tget (head_tree g) p) /\
+  refs_rel tb g g' /\ new_commits_managed_only g g' /\
+  (managed_clean g -> g_log g' = g_log g /\ g_index g' = g_index g).
+
+Lemma add_commit_only_ok g ok g' t t1 :
+  match git_add g with
+  | (false, _, g2) => (false, g2, t1 ++ [GAddVerbose])
+  | (true, out, g2) =>
+      if is_nil out then (true, g2, t1 ++ [GAddVerbose])
+      else match git_commit_only g2 with (okc, g3) => (okc, g3, t1 ++ [GAddVerbose; GCommitOnly]) end
+  end = (ok, g', t) ->
+  g_wt g' = g_wt g /\ g_stash g' = g_stash g /\
+  (forall p, managed p = false -> tget (g_index g') p = tget (g_index g) p) /\
+  (forall p, managed p = false -> tget (head_tree g') p = tget (head_tree g) p) /\
+  commit_refs g g' /\ new_commits_managed_only g g' /\
+  (managed_clean g -> g_log g' = g_log g /\ g_index g' = g_index g).
+Proof.
+  destruct (git_add g) as [[oka out] ga] eqn:Ea.
+  destruct (git_add_spec _ _ _ _ Ea) as (Fa & Wa & Sa & Onil & Ia & Ma & Oa).
+  assert (Hidx : forall p, managed p = false -> tget (g_index ga) p = tget (g_index g) p).
+  { intros p Hp. rewrite Ia. destruct (mem p out) eqn:Em; [|reflexivity].
+    apply Ma, add_change_spec in Em. destruct Em; congruence. }
+  assert (Hclean : managed_clean g -> out = []).
+  { intros Hc. destruct out as [|p r]; [reflexivity|]. exfalso.
+    assert (Hm : mem p (p :: r) = true) by (apply mem_spec; now left).
+    apply Ma, add_change_spec in Hm. destruct Hm as [Hm Hd]. apply Hd. now apply Hc. }
+  assert (Hnone : g_wt ga = g_wt g /\ g_stash ga = g_stash g /\
+            (forall p, managed p = false -> tget (g_index ga) p = tget (g_index g) p) /\
+            (forall p, managed p = false -> tget (head_tree ga) p = tget (head_tree g) p) /\
+            commit_refs g ga /\ new_commits_managed_only g ga /\
+            (managed_clean g -> g_log ga = g_log g /\ g_index ga = g_index g)).
+  { split; [exact Wa|]. split; [exact Sa|]. split; [exact Hidx|].
+    split; [intros p _; now rewrite (frame_head_tree _ _ Fa)|].
+    split; [now apply commit_refs_frame|]. split; [apply ncmo_log; apply Fa|].
+    intros Hc. split; [apply Fa|]. apply Onil. now apply Hclean. }
+  destruct oka; [|intros [= <- <- <-]; exact Hnone].
+  destruct (is_nil out) eqn:En; [intros [= <- <- <-]; exact Hnone|].
+  destruct (git_commit_only ga) as [okc gc] eqn:Ec. intros [= <- <- <-].
+  destruct (git_commit_only_spec _ _ _ Ec) as (Wc & Sc & Tc & Cf & Ic & Ct).
+  destruct okc.
+  2:{ rewrite (Cf eq_refl). exact Hnone. }
+  destruct (Ct eq_refl) as (Ht & Hb & Hob & Hbr & c & Hl & Hcp & Hct).
+  split; [congruence|]. split; [congruence|]. split.
+  { intros p Hp. destruct (Ic p) as [->|(_ & Hm & _)]; [now apply Hidx|congruence]. }
+  split.
+  { intros p Hp. rewrite Ht. destruct (mem p (commit_paths ga)) eqn:Em.
+    - apply mem_commit_paths in Em. congruence.
+    - now rewrite (frame_head_tree _ _ Fa). }
+  split.
+  { split; [destruct Fa as (_ & _ & T & _); congruence|]. split; [rewrite Hb; now apply frame_head_branch|].
+    split.
+    - intros n. rewrite Hob. now rewrite (frame_other_branches _ _ Fa).
+    - intros n Hn. rewrite Hbr.
+      + destruct Fa as (_ & -> & _). reflexivity.
+      + now rewrite (frame_head_branch _ _ Fa). }
+  split.
+  { exists [c]. split.
+    - rewrite Hl. destruct Fa as (_ & _ & _ & ->). reflexivity.
+    - cbn [ext_ok app]. split; [exact I|]. intros p Hp. rewrite (Hct p Hp), Hcp.
+      rewrite (frame_head_id _ _ Fa). fold (head_tree g). now rewrite (frame_head_tree _ _ Fa). }
+  intros Hc. rewrite (Hclean Hc) in En. discriminate.
+Qed.
+
+Lemma auto_commit_only_ok tb g ok g' t :
+  git_auto_commit_only tb g = (ok, g', t) -> call_rel24 tb g g'.
+Proof.
+  unfold git_auto_commit_only. destruct tb as [b|].
+  - destruct (checkout_b b g) as [okb gb] eqn:Eb.
+    destruct (checkout_b_spec _ _ _ _ Eb) as (Ib & Wb & Sb & Tb & Lb & Cf & Ct).
+    destruct okb; cbn [negb].
+    + destruct (Ct eq_refl) as (Hid & Hhb & Hbr). intros Hac.
+      assert (Hht : head_tree gb = head_tree g) by (unfold head_tree; now rewrite Hid, Lb).
+      apply add_commit_only_ok in Hac.
+      destruct Hac as (A & B & C & D & (C1 & C2 & C3 & C4) & E & F).
+      split; [congruence|]. split; [congruence|].
+      split; [intros p Hp; rewrite (C p Hp); now rewrite Ib|].
+      split; [intros p Hp; rewrite (D p Hp); now rewrite Hht|].
+      split.
+      { split; [congruence|]. intros n Hn. rewrite C4; [now apply Hbr|]. rewrite Hhb. congruence. }
+      split.
+      { destruct E as [new [E1 E2]]. exists new. now rewrite <- Lb. }
+      intros Hc. rewrite <- Lb, <- Ib. apply F. now apply (managed_clean_ext g).
+    + intros [= <- <- <-]. rewrite (Cf eq_refl).
+      split; [reflexivity|]. split; [reflexivity|]. split; [reflexivity|]. split; [reflexivity|].
+      split; [apply refs_rel_refl|]. split; [apply ncmo_refl|]. intros _. split; reflexivity.
+  - cbn [negb]. intros Hac. apply add_commit_only_ok in Hac.
+    destruct Hac as (A & B & C & D & (C1 & C2 & C3 & C4) & E & F).
+    split; [exact A|]. split; [exact B|]. split; [exact C|]. split; [exact D|].
+    split; [split; [exact C1|split; [exact C2|exact C3]]|]. split; [exact E|exact F].
+Qed.
+
 (* ---- the user's view ------------------------------------------------------------------------ *)
 Definition same_user_view (tb : option name) (g g' : git) : Prop :=
   (forall p, uv_index g' p = uv_index g p) /\ (forall p, uv_wt g' p = uv_wt g p) /\
@@ -751,21 +896,37 @@ Proof.
 Qed.
 
 (* ---- handle_git_automation, the calls of one invocation -------------------------------------- *)
+Definition flow_ok (s : settings) : Prop := fixed_P24 s = true \/ fixed_P20 s = true.
 Definition J (s : settings) (g : git) (ts : list path) : Prop :=
-  if use_git s && auto_commit s then Inv g ts else True.
+  if use_git s && auto_commit s && negb (fixed_P24 s) then Inv g ts else True.
+
+Lemma call_rel24_view tb g g' : call_rel24 tb g g' -> view_rel tb g g'.
+Proof.
+  intros (A & B & C & D & E & F & G). split; [|exact F].
+  split; [intros p; unfold uv_index; destruct (managed p) eqn:Em; [reflexivity|now apply C]|].
+  split; [intros p; unfold uv_wt; now rewrite A|].
+  split; [intros p; unfold uv_head; destruct (managed p) eqn:Em; [reflexivity|now apply D]|].
+  split; [exact B|exact E].
+Qed.
 
 Lemma handle_ok s g ts ok g' t :
-  fixed_P20 s = true -> J s g ts -> handle_git_automation s g = (ok, g', t) ->
+  flow_ok s -> J s g ts -> handle_git_automation s g = (ok, g', t) ->
   view_rel (to_branch s) g g' /\ J s g' ts /\ (managed_clean g -> g_log g' = g_log g /\ managed_clean g').
 Proof.
   intros Hfx Hj. unfold handle_git_automation, J in *.
   destruct (use_git s); [|intros [= <- <- <-]; split; [apply view_rel_refl|split; [exact I|auto]]].
   destruct (auto_commit s); cbn [andb] in *.
-  - rewrite Hfx. intros Hac. apply auto_commit_ok in Hac; [|intros p Hs; now apply Hj].
-    split; [now apply call_rel_view|]. destruct Hac as (A & B & C & D & E & F & G & H). split.
-    + intros p Hs. destruct (D p Hs) as [Hs0 Ei]. destruct (Hj p Hs0) as [Ew M]. split; [|exact M].
-      now rewrite Ei, (A p).
-    + intros Hc. destruct (H Hc) as [H1 H2]. split; [exact H1|]. intros p Hp. now rewrite (A p), (H2 p), (Hc p Hp).
+  - destruct (fixed_P24 s) eqn:E24; cbn [negb] in *.
+    + intros Hac. apply auto_commit_only_ok in Hac.
+      split; [now apply call_rel24_view|]. split; [exact I|].
+      destruct Hac as (A & B & C & D & E & F & G). intros Hc. destruct (G Hc) as [G1 G2].
+      split; [exact G1|]. now apply (managed_clean_ext g).
+    + assert (Hfx20 : fixed_P20 s = true) by (destruct Hfx as [H|H]; [congruence|exact H]).
+      rewrite Hfx20. intros Hac. apply auto_commit_ok in Hac; [|intros p Hs; now apply Hj].
+      split; [now apply call_rel_view|]. destruct Hac as (A & B & C & D & E & F & G & H). split.
+      * intros p Hs. destruct (D p Hs) as [Hs0 Ei]. destruct (Hj p Hs0) as [Ew M]. split; [|exact M].
+        now rewrite Ei, (A p).
+      * intros Hc. destruct (H Hc) as [H1 H2]. split; [exact H1|]. intros p Hp. now rewrite (A p), (H2 p), (Hc p Hp).
   - destruct (auto_stage s).
     + unfold git_auto_stage. destruct (git_add g) as [[ok1 out] g1] eqn:Ea. intros [= <- <- <-].
       destruct (git_add_spec _ _ _ _ Ea) as (Fa & Wa & Sa & Onil & Ia & Ma & Oa).
@@ -783,9 +944,9 @@ Proof.
 Qed.
 
 Lemma J_apply_delta s d g ts : (forall p, In p (map fst d) -> mem p ts = true) -> J s g ts -> J s (apply_delta d g) ts.
-Proof. unfold J. destruct (use_git s && auto_commit s); [apply apply_delta_inv|auto]. Qed.
+Proof. unfold J. destruct (use_git s && auto_commit s && negb (fixed_P24 s)); [apply apply_delta_inv|auto]. Qed.
 
-Lemma run_calls_ok s ts : fixed_P20 s = true -> forall cs k g st g' t,
+Lemma run_calls_ok s ts : flow_ok s -> forall cs k g st g' t,
   J s g ts ->
   (forall d b, In (d, b) cs -> delta_managed d = true /\ forall p, In p (map fst d) -> mem p ts = true) ->
   run_calls s cs k g = (st, g', t) -> view_rel (to_branch s) g g'.
@@ -807,10 +968,8 @@ Proof.
     + intros Er. eapply view_rel_trans; [exact Hv1|]. eapply IH; eauto.
 Qed.
 
-Lemma managed_clean_ext g g' : g_wt g' = g_wt g -> g_index g' = g_index g -> managed_clean g -> managed_clean g'.
-Proof. intros E1 E2 H p Hp. rewrite E1, E2. now apply H. Qed.
 
-Lemma run_calls_readonly s ts : fixed_P20 s = true -> forall cs k g st g' t,
+Lemma run_calls_readonly s ts : flow_ok s -> forall cs k g st g' t,
   J s g ts -> managed_clean g -> (forall d b, In (d, b) cs -> d = []) ->
   run_calls s cs k g = (st, g', t) -> g_log g' = g_log g.
 Proof.
@@ -855,10 +1014,17 @@ Proof.
 Qed.
 
 (* ---- the property theorems ------------------------------------------------------------------- *)
+Lemma J_of_class s c g : Known_class s c g = false -> J s g (touched c).
+Proof.
+  unfold Known_class, J. intros Hk.
+  destruct (use_git s && auto_commit s && negb (fixed_P24 s)) eqn:E; [|exact I].
+  apply andb_true_iff in E. destruct E as [_ E]. rewrite E in Hk. cbn [andb] in Hk. now apply known_at_inv.
+Qed.
+
 Lemma dispatch_view_lemma s c g :
-  fixed_P20 s = true -> from_ref s = None ->
+  flow_ok s -> from_ref s = None ->
   delta_managed (c_delta c) = true -> delta_managed (c_delta2 c) = true ->
-  Known_staged_and_unstaged_same_path c g = false ->
+  Known_class s c g = false ->
   view_rel (to_branch s) g (snd (fst (dispatch s c g))).
 Proof.
   intros Hfx Hfr Hd1 Hd2 Hk. unfold dispatch. rewrite Hfr. cbn [negb].
@@ -866,7 +1032,7 @@ Proof.
   2:{ cbn [fst snd]. now apply apply_delta_view. }
   destruct (run_calls s (calls s c) 0 g) as [[st g1] t1] eqn:Er. cbn [fst snd].
   eapply (run_calls_ok s (touched c) Hfx); [| |exact Er].
-  - unfold J. destruct (use_git s && auto_commit s); [|exact I]. now apply known_at_inv.
+  - now apply J_of_class.
   - intros d b Hi. apply calls_deltas in Hi. unfold touched.
     destruct Hi as [-> | [-> | -> ]].
     + split; [exact Hd1|]. intros p Hp. apply mem_spec, in_or_app. now left.
@@ -874,9 +1040,20 @@ Proof.
     + split; [reflexivity|intros p []].
 Qed.
 
+(* the class is empty under the repaired flow, so there the statement holds for every state *)
+Lemma known_class_fixed s c g : fixed_P24 s = true -> Known_class s c g = false.
+Proof. unfold Known_class. now intros ->. Qed.
+Lemma dispatch_view_fixed_lemma s c g :
+  fixed_P24 s = true -> from_ref s = None ->
+  delta_managed (c_delta c) = true -> delta_managed (c_delta2 c) = true ->
+  view_rel (to_branch s) g (snd (fst (dispatch s c g))).
+Proof.
+  intros H24 Hfr Hd1 Hd2. apply dispatch_view_lemma; auto; [now left|now apply known_class_fixed].
+Qed.
+
 Lemma dispatch_readonly_lemma s c g :
-  fixed_P20 s = true -> from_ref s = None -> c_delta c = [] -> c_delta2 c = [] ->
-  managed_clean g -> Known_staged_and_unstaged_same_path c g = false ->
+  flow_ok s -> from_ref s = None -> c_delta c = [] -> c_delta2 c = [] ->
+  managed_clean g -> Known_class s c g = false ->
   g_log (snd (fst (dispatch s c g))) = g_log g.
 Proof.
   intros Hfx Hfr Hd1 Hd2 Hc Hk. unfold dispatch. rewrite Hfr. cbn [negb].
@@ -884,17 +1061,11 @@ Proof.
   2:{ cbn [fst snd]. apply (apply_delta_spec (c_delta c) g). }
   destruct (run_calls s (calls s c) 0 g) as [[st g1] t1] eqn:Er. cbn [fst snd].
   eapply (run_calls_readonly s (touched c) Hfx); [|exact Hc| |exact Er].
-  - unfold J. destruct (use_git s && auto_commit s); [|exact I]. now apply known_at_inv.
+  - now apply J_of_class.
   - intros d b Hi. apply calls_deltas in Hi. destruct Hi as [-> | [-> | -> ]]; auto.
 Qed.
 
 (* ---- refs, for every Git state and both control flows ---------------------------------------- *)
-Lemma commit_refs_frame g g' : frame g g' -> commit_refs g g'.
-Proof.
-  intros F. split; [apply F|]. split; [now apply frame_head_branch|]. split.
-  - intros n. now rewrite (frame_other_branches _ _ F).
-  - intros n _. destruct F as (_ & -> & _). reflexivity.
-Qed.
 Lemma add_commit_refs t1 g ok fin g2 t : add_commit t1 g = (ok, fin, g2, t) -> commit_refs g g2.
 Proof.
   unfold add_commit. destruct (git_add g) as [[oka out] ga] eqn:Ea.
@@ -951,7 +1122,9 @@ Qed.
 Lemma handle_refs s g ok g' t : handle_git_automation s g = (ok, g', t) -> refs_rel (to_branch s) g g'.
 Proof.
   unfold handle_git_automation. destruct (use_git s); [|intros [= _ <- _]; apply refs_rel_refl].
-  destruct (auto_commit s); [apply auto_commit_refs|].
+  destruct (auto_commit s).
+  { destruct (fixed_P24 s); [|apply auto_commit_refs].
+    intros Hac. apply auto_commit_only_ok in Hac. apply Hac. }
   destruct (auto_stage s); [|intros [= _ <- _]; apply refs_rel_refl].
   unfold git_auto_stage. destruct (git_add g) as [[ok1 out] g1] eqn:Ea. intros [= _ <- _].
   apply refs_rel_frame. apply (git_add_spec _ _ _ _ Ea).
@@ -1128,19 +1301,24 @@ Proof.
 Qed.
 
 Lemma handle_clean s g ok g' t :
-  fixed_P20 s = true -> managed_clean g -> handle_git_automation s g = (ok, g', t) ->
+  flow_ok s -> managed_clean g -> handle_git_automation s g = (ok, g', t) ->
   g_log g' = g_log g /\ (ok = true -> managed_clean g').
 Proof.
   intros Hfx Hc. unfold handle_git_automation.
   destruct (use_git s); [|intros [= <- <- <-]; auto].
-  destruct (auto_commit s); [rewrite Hfx; now apply auto_commit_clean|].
+  destruct (auto_commit s).
+  { destruct (fixed_P24 s) eqn:E24.
+    - intros Hac. apply auto_commit_only_ok in Hac. destruct Hac as (A & B & C & D & E & F & G).
+      destruct (G Hc) as [G1 G2]. split; [exact G1|]. intros _. now apply (managed_clean_ext g).
+    - assert (Hfx20 : fixed_P20 s = true) by (destruct Hfx as [H|H]; [congruence|exact H]).
+      rewrite Hfx20. now apply auto_commit_clean. }
   destruct (auto_stage s); [|intros [= <- <- <-]; auto].
   unfold git_auto_stage. destruct (git_add g) as [[ok1 out] g1] eqn:Ea. intros [= <- <- <-].
   destruct (git_add_spec _ _ _ _ Ea) as (Fa & Wa & Sa & Onil & Ia & Ma & Oa).
   split; [apply Fa|]. intros _ p Hp. rewrite Wa, Ia. destruct (mem p out); [reflexivity|now apply Hc].
 Qed.
 
-Lemma run_calls_readonly_all s : fixed_P20 s = true -> forall cs k g st g' t,
+Lemma run_calls_readonly_all s : flow_ok s -> forall cs k g st g' t,
   managed_clean g -> (forall d b, In (d, b) cs -> d = []) ->
   run_calls s cs k g = (st, g', t) -> g_log g' = g_log g.
 Proof.
@@ -1160,7 +1338,7 @@ Proof.
 Qed.
 
 Lemma dispatch_readonly_all_lemma s c g :
-  fixed_P20 s = true -> from_ref s = None -> c_delta c = [] -> c_delta2 c = [] -> managed_clean g ->
+  flow_ok s -> from_ref s = None -> c_delta c = [] -> c_delta2 c = [] -> managed_clean g ->
   g_log (snd (fst (dispatch s c g))) = g_log g.
 Proof.
   intros Hfx Hfr Hd1 Hd2 Hc. unfold dispatch. rewrite Hfr. cbn [negb].
@@ -1169,4 +1347,121 @@ Proof.
   destruct (run_calls s (calls s c) 0 g) as [[st g1] t1] eqn:Er. cbn [fst snd].
   eapply (run_calls_readonly_all s Hfx); [exact Hc| |exact Er].
   intros d b Hi. apply calls_deltas in Hi. destruct Hi as [-> | [-> | -> ]]; auto.
+Qed.
+
+(* ---- the repaired flow never touches work tree or stash --------------------------------------- *)
+Lemma handle_wt24 s g ok g' t :
+  fixed_P24 s = true -> handle_git_automation s g = (ok, g', t) -> g_wt g' = g_wt g /\ g_stash g' = g_stash g.
+Proof.
+  intros H24. unfold handle_git_automation. rewrite H24.
+  destruct (use_git s); [|intros [= _ <- _]; auto].
+  destruct (auto_commit s).
+  { intros Hac. apply auto_commit_only_ok in Hac. destruct Hac as (A & B & _). auto. }
+  destruct (auto_stage s); [|intros [= _ <- _]; auto].
+  unfold git_auto_stage. destruct (git_add g) as [[ok1 out] g1] eqn:Ea. intros [= _ <- _].
+  destruct (git_add_spec _ _ _ _ Ea) as (_ & Wa & Sa & _). auto.
+Qed.
+Lemma run_calls_wt24 s : fixed_P24 s = true -> forall cs k g st g' t,
+  run_calls s cs k g = (st, g', t) ->
+  g_stash g' = g_stash g /\
+  forall p, (forall d b, In (d, b) cs -> ~ In p (map fst d)) -> tget (g_wt g') p = tget (g_wt g) p.
+Proof.
+  intros H24 cs. induction cs as [|[d b] r IH]; intros k g st g' t; cbn [run_calls].
+  - intros [= _ <- _]. auto.
+  - destruct (apply_delta_spec d g) as (_ & _ & Sd & Wd).
+    assert (Hp : forall p, (forall d0 b0, In (d0, b0) ((d, b) :: r) -> ~ In p (map fst d0)) ->
+                 tget (g_wt (apply_delta d g)) p = tget (g_wt g) p /\ (forall d0 b0, In (d0, b0) r -> ~ In p (map fst d0))).
+    { intros p H. split; [apply Wd, (H d b); now left|]. intros d0 b0 Hi. apply (H d0 b0). now right. }
+    destruct b.
+    + destruct (handle_git_automation s (apply_delta d g)) as [[ok g2] t2] eqn:Eh.
+      destruct (handle_wt24 _ _ _ _ _ H24 Eh) as [W2 S2]. destruct ok.
+      * destruct (run_calls s r (S k) g2) as [[st3 g3] t3] eqn:Er. intros [= _ <- _].
+        destruct (IH _ _ _ _ _ Er) as [S3 W3]. split; [congruence|].
+        intros p H. destruct (Hp p H) as [E1 E2]. now rewrite (W3 p E2), W2.
+      * intros [= _ <- _]. split; [congruence|]. intros p H. destruct (Hp p H) as [E1 _]. now rewrite W2.
+    + intros Er. destruct (IH _ _ _ _ _ Er) as [S3 W3]. split; [congruence|].
+      intros p H. destruct (Hp p H) as [E1 E2]. now rewrite (W3 p E2).
+Qed.
+Lemma dispatch_wt24_lemma s c g :
+  fixed_P24 s = true -> from_ref s = None ->
+  g_stash (snd (fst (dispatch s c g))) = g_stash g /\
+  forall p, ~ In p (touched c) -> tget (g_wt (snd (fst (dispatch s c g)))) p = tget (g_wt g) p.
+Proof.
+  intros H24 Hfr. unfold dispatch. rewrite Hfr. cbn [negb]. destruct (c_ok c); cbn [negb].
+  2:{ cbn [fst snd]. destruct (apply_delta_spec (c_delta c) g) as (_ & _ & Sd & Wd). split; [exact Sd|].
+      intros p Hn. apply Wd. intros Hi. apply Hn. unfold touched. apply in_or_app. now left. }
+  destruct (run_calls s (calls s c) 0 g) as [[st g1] t1] eqn:Er. cbn [fst snd].
+  destruct (run_calls_wt24 s H24 _ _ _ _ _ _ Er) as [S1 W1]. split; [exact S1|].
+  intros p Hn. apply W1. intros d b Hi Hin. apply Hn. unfold touched. apply calls_deltas in Hi.
+  destruct Hi as [-> | [-> | -> ]]; [apply in_or_app; now left|apply in_or_app; now right|destruct Hin].
+Qed.
+
+(* ---- --from-ref under the repaired flow: a plain `git checkout` ---------------------------------- *)
+(* what `git checkout <ref>` does to one path: it keeps index entry and file (the path is the same in both
+   commits, or the index already has the target's version), or the path had no local change (index = HEAD;
+   the file is what the index says, or missing, or an ignored untracked file) and gets the target's version *)
+Definition carried (H T I W I' W' : option blob) (ig : bool) : Prop :=
+  (I' = I /\ W' = W /\ (H = T \/ I = T)) \/
+  (I = H /\ H <> T /\ I' = T /\ W' = T /\ (wt_uptodate I W = true \/ (ig = true /\ I = None))).
+
+Lemma checkout_ref_spec r g ok g1 : checkout_ref r g = (ok, g1) ->
+  g_stash g1 = g_stash g /\ g_branches g1 = g_branches g /\ g_tags g1 = g_tags g /\ g_log g1 = g_log g /\
+  (ok = false -> g1 = g) /\
+  (ok = true -> exists h' i, resolve g r = Some (h', i) /\ g_head g1 = h' /\
+     forall p, carried (tget (head_tree g) p) (tget (tree_of (g_log g) (Some i)) p)
+                       (tget (g_index g) p) (tget (g_wt g) p) (tget (g_index g1) p) (tget (g_wt g1) p) (ignored p)).
+Proof.
+  unfold checkout_ref. destruct (resolve g r) as [[h' i]|] eqn:Er.
+  2:{ intros [= <- <-]. do 4 (split; [reflexivity|]). split; [reflexivity|discriminate]. }
+  cbv zeta.
+  set (H := head_tree g). set (T := tree_of (g_log g) (Some i)). set (ks := tkeys H ++ tkeys T).
+  match goal with |- context [existsb ?f ks] => destruct (existsb f ks) eqn:Ex end.
+  { intros [= <- <-]. do 4 (split; [reflexivity|]). split; [reflexivity|discriminate]. }
+  intros [= <- <-]. cbn [g_stash g_branches g_tags g_log g_head g_index g_wt set_head set_index set_wt].
+  do 4 (split; [reflexivity|]). split; [discriminate|]. intros _.
+  exists h', i. split; [reflexivity|]. split; [reflexivity|]. intros p. rewrite !tget_upd.
+  destruct (mem p ks) eqn:Em.
+  2:{ left. split; [reflexivity|]. split; [reflexivity|]. left.
+      apply mem_false in Em. unfold ks in Em. rewrite in_app_iff in Em. rewrite !tget_notin by tauto. reflexivity. }
+  assert (Hnr := existsb_false_inv _ _ p Ex (proj1 (mem_spec p ks) Em)). cbn beta in Hnr.
+  revert Hnr. unfold checkout_path.
+  destruct (oblob_eqb_spec (tget H p) (tget T p)) as [Eht|Nht]; [intros _; left; auto|].
+  destruct (negb (is_some (tget (g_index g) p)) && negb (is_some (tget T p)) && is_some (tget (g_wt g) p) && negb (ignored p));
+    [discriminate|].
+  destruct (oblob_eqb_spec (tget (g_index g) p) (tget T p)) as [Eit|Nit]; [intros _; left; auto|].
+  destruct (oblob_eqb_spec (tget (g_index g) p) (tget H p)) as [Eih|Nih]; [|discriminate].
+  destruct (tget (g_index g) p) as [ib|] eqn:Ei.
+  - destruct (wt_uptodate (Some ib) (tget (g_wt g) p)) eqn:Eu; [|discriminate]. intros _. right.
+    split; [exact Eih|]. split; [exact Nht|]. split; [reflexivity|]. split; [reflexivity|]. now left.
+  - destruct (tget (g_wt g) p) as [wb|] eqn:Ew.
+    + destruct (ignored p) eqn:Eig; [|discriminate]. intros _. right.
+      split; [exact Eih|]. split; [exact Nht|]. split; [reflexivity|]. split; [reflexivity|]. right. auto.
+    + cbn [wt_uptodate]. intros _. right. split; [exact Eih|]. split; [exact Nht|]. split; [reflexivity|]. split; [reflexivity|]. now left.
+Qed.
+
+Lemma run_calls_status s : forall cs k g st g' t, run_calls s cs k g = (st, g', t) -> st <> SFromRefFailed.
+Proof.
+  intros cs. induction cs as [|[d b] r IH]; intros k g st g' t; cbn [run_calls].
+  - intros [= <- _ _]. discriminate.
+  - destruct b; [|apply IH].
+    destruct (handle_git_automation s (apply_delta d g)) as [[[|] g2] t2].
+    + destruct (run_calls s r (S k) g2) as [[st3 g3] t3] eqn:Er. intros [= <- _ _]. eapply IH; eauto.
+    + intros [= <- _ _]. discriminate.
+Qed.
+Lemma dispatch_from_ref24_lemma s c g r :
+  fixed_P24 s = true -> from_ref s = Some r ->
+  match checkout_ref r g with
+  | (false, _) => dispatch s c g = (SFromRefFailed, g, [GCheckout r])
+  | (true, g1) => fst (fst (dispatch s c g)) <> SFromRefFailed /\ g_stash g1 = g_stash g /\
+                  exists t, snd (dispatch s c g) = GCheckout r :: t
+  end.
+Proof.
+  intros H24 Hfr. unfold dispatch. rewrite Hfr, H24. unfold git_checkout_ref_plain.
+  destruct (checkout_ref r g) as [[|] g1] eqn:Ec; cbn [negb].
+  2:{ destruct (checkout_ref_spec _ _ _ _ Ec) as (_ & _ & _ & _ & Cf & _). now rewrite (Cf eq_refl). }
+  destruct (checkout_ref_spec _ _ _ _ Ec) as (S1 & _).
+  destruct (c_ok c); cbn [negb fst snd].
+  - destruct (run_calls s (calls s c) 0 g1) as [[st g2] t2] eqn:Er. cbn [fst snd app].
+    split; [eapply run_calls_status; eauto|]. split; [exact S1|]. eexists. reflexivity.
+  - split; [discriminate|]. split; [exact S1|]. exists []. reflexivity.
 Qed.
